@@ -1,13 +1,13 @@
 #!/bin/bash
-# usage: seed_r3.sh <ID>...   — take the round-3 sub-agent output /tmp/mut3_<ID>/_out/m{1,2}_* , store it as
+# usage: [ROUND=4] seed_r3.sh <ID>...   — take the round-3 sub-agent output /tmp/mut3_<ID>/_out/m{1,2}_* , store it as
 # /verif/seeded/<ID>_r3m<k>/, confirm it in a scratch worktree (tools/mutants.py confirm) and evaluate every claimed check
 # against it in an isolated copy (tools/iso.py).  DEMOARGS_<name> may override the cargo arguments of the demonstration.
 cd /verif
 mkdir -p work/mutants work/iso
 for id in "$@"; do
   for k in 1 2 3; do
-    src=/tmp/mut3_$id/_out
-    name=${id}_r3m$k
+    src=/tmp/mut${ROUND:-3}_$id/_out
+    name=${id}_r${ROUND:-3}m$k
     d=seeded/$name
     if [ -f $src/m${k}_patch.diff ]; then
       mkdir -p $d
